@@ -789,6 +789,8 @@ end Asynkit.Gen
     files.update(__import__("pospq2lean").generate(src))   # Gen/PosPQ.lean: the whole PosPriorityQueue class
     files.update(__import__("interrupt2lean").generate(src))   # Gen/Interrupt.lean: task_throw, task_interrupt prefix
     files.update(__import__("sched2lean").generate(src))   # Gen/SchedOps.lean (an Unsupported there is a KeyError)
+    files.update(__import__("corostate2lean").generate(src))   # C20: coroutine state helpers
+    files.update(__import__("ctxresume2lean").generate(src))   # C04: which context a segment runs in
     top = body_no_doc(fn4)
     if len(top) != 1 or not isinstance(top[0], ast.If) or not isinstance(top[0].test, ast.Name):
         raise Unsupported("update_counters is no longer `if inserted: ... else: ...`")
